@@ -320,6 +320,9 @@ func runCase(run *lib.Run, c int64, base string) {
 			}
 		}
 	}
+	if cc.Profile == "tmpl-eqv" && c%3 == 0 {
+		adv.Relabel = true
+	}
 	switch cc.Profile {
 	case "tmpl-valset-eqv":
 		run.Count("template_valset_history_cases", 1)
@@ -389,6 +392,7 @@ func runCase(run *lib.Run, c int64, base string) {
 	run.Count("byz_votes", int64(adv.ByzVotes))
 	run.Count("byz_proposals", int64(adv.ByzProposals))
 	run.Count("template_amnesia_rejected_proposal_first", int64(adv.RejectedFirst))
+	run.Count("template_byzantine_votes_relabelled_with_other_indices", int64(adv.Relabelled))
 	run.Count("crashes", int64(adv.Crashes))
 	run.Count("duplicates_delivered", int64(adv.Dups))
 	run.Count("timeouts_fired", int64(adv.Fired))
@@ -454,5 +458,10 @@ func main() {
 	run.Require("byz_votes", 100)
 	run.Require("crashes", 20)
 	run.Require("template_stale_polka_staged", 10)
+	if n := run.Get("runs_aborted_by_panic"); n > 0 {
+		// a case that ended in a panic of the code under test was not judged: never a silent pass
+		// (what a peer can make a node panic with is C08's subject; the sites are in the evidence)
+		run.Inconclusive(fmt.Sprintf("%d cases were aborted by a panic of the code under test and could not be judged (distinct sites: evidence, set panic_sites)", n))
+	}
 	os.Exit(run.Finish())
 }
